@@ -1,4 +1,6 @@
 import GV.Model.Vrf
+import GV.Gen.VrfFacts
+import GV.Gen.VrfConsts
 /-!
 C38 — VRF proofs verify exactly when they are genuine.
 
@@ -62,18 +64,76 @@ theorem accepted_output [DecidableEq S] (Y : G) (pi : Proof G S) (alpha : Msg) (
   · split at h <;> simp at h
     exact h.symm
 
-/-- The full statement (kept, not proved): besides completeness, *only* the genuine proof is
-    accepted.  Not derivable from the module laws — it is the soundness of the scheme. -/
+/-- **Any nonce gives an accepted proof with the same output**: the proof
+    `(x·H, c = hashPoints(H, x·H, k'·B, k'·H), k' + c·x)` verifies for *every* scalar `k'`, and its
+    output is the prover's.  So accepted proofs are not unique as byte strings (the holder of the
+    secret key can make others); what the scheme promises is uniqueness of the *output*. -/
+theorem verify_any_nonce [DecidableEq S] (hL : Laws P) (sk : Sk) (alpha : Msg) (k' : S)
+    (hso : P.smallOrder (pkOf P sk) = false) :
+    let x := P.scalarOf sk
+    let H := P.h2c (pkOf P sk) alpha
+    let c := P.hashPoints H (P.smul x H) (P.smul k' P.base) (P.smul k' H)
+    verifyAndHash P (pkOf P sk) { gamma := P.smul x H, c := c, s := P.sadd k' (P.smulS c x) } alpha
+      = .ok (prove P sk alpha).2 := by
+  intro x H c
+  unfold verifyAndHash verifyCore prove pkOf at *
+  simp only [hso, Bool.false_eq_true, if_false, Bool.not_true]
+  have e1 := recompute P hL k' c x P.base
+  have e2 := recompute P hL k' c x H
+  simp only [x, H, c, pkOf] at e1 e2 ⊢
+  rw [e1, e2]
+  simp
+
+/-- the traced values are the ones the verdict is computed from (what the oracle tie compares) -/
+theorem verifyCore_trace [DecidableEq S] (Y : G) (pi : Proof G S) (alpha : Msg) :
+    verifyCore P Y pi alpha =
+      if !pi.sCanonical then .error .nonCanonicalS
+      else .ok (pi.c == (verifyTrace P Y pi alpha).c') := rfl
+
+theorem prove_trace (sk : Sk) (alpha : Msg) :
+    (prove P sk alpha).1 = { gamma := (proveTrace P sk alpha).gamma, c := (proveTrace P sk alpha).c,
+                             s := (proveTrace P sk alpha).s } ∧
+    (prove P sk alpha).2 = P.outHash (proveTrace P sk alpha).gamma := ⟨rfl, rfl⟩
+
+/-- for a genuine proof the verifier recomputes exactly the prover's commitments U = k·B, V = k·H -/
+theorem verify_recomputes_commitments (hL : Laws P) (sk : Sk) (alpha : Msg) :
+    (verifyTrace P (pkOf P sk) (prove P sk alpha).1 alpha).u = (proveTrace P sk alpha).u ∧
+    (verifyTrace P (pkOf P sk) (prove P sk alpha).1 alpha).v = (proveTrace P sk alpha).v ∧
+    (verifyTrace P (pkOf P sk) (prove P sk alpha).1 alpha).c' = (proveTrace P sk alpha).c := by
+  unfold verifyTrace proveTrace prove pkOf
+  simp only
+  rw [recompute P hL, recompute P hL]
+  exact ⟨rfl, rfl, rfl⟩
+
+/-- The full statement (kept, not proved): besides completeness, every accepted proof carries the
+    genuine `Gamma = x·H`, hence the genuine output ("full uniqueness" of the VRF) — so no
+    change of proof, message or key can yield an accepted different output.  Not derivable from the
+    module laws: it is the soundness of the scheme (discrete-log independence of B and H, random
+    oracle `hashPoints`).  Byte-level "any flipped bit fails" is weaker-and-stronger than this
+    (see `verify_any_nonce`: other valid proofs exist) and is only tested. -/
 def C38_full [DecidableEq S] : Prop :=
   ∀ sk alpha, P.smallOrder (pkOf P sk) = false →
     verifyAndHash P (pkOf P sk) (prove P sk alpha).1 alpha = .ok (prove P sk alpha).2 ∧
-    ∀ pi, pi ≠ (prove P sk alpha).1 → ∃ e, verifyAndHash P (pkOf P sk) pi alpha = .error e
+    ∀ pi o, verifyAndHash P (pkOf P sk) pi alpha = .ok o → o = (prove P sk alpha).2
 
 /-- what is proved of it -/
 theorem C38_partial [DecidableEq S] (hL : Laws P) :
     ∀ sk alpha, P.smallOrder (pkOf P sk) = false →
       verifyAndHash P (pkOf P sk) (prove P sk alpha).1 alpha = .ok (prove P sk alpha).2 :=
   fun sk alpha h => verify_prove P hL sk alpha h
+
+/-- Regenerated source facts: the order of the guards of `VerifyAndHash` (key decoding, small
+    order, core verification, hash), the helper calls of `verify` and `Prove`, the proof-length
+    check and the size constants as they stand in vrf/vrf.go on this run. -/
+theorem source_facts :
+    GV.Gen.VrfFacts.verifyAndHashConds = ["err != nil", "isSmallOrder", "err != nil", "!ok"] ∧
+    GV.Gen.VrfFacts.verifyConds = ["err != nil", "err != nil", "err != nil"] ∧
+    GV.Gen.VrfFacts.verifyCalls = ["decodeProofArrays", "hashToCurveElligator2", "hashPoints"] ∧
+    GV.Gen.VrfFacts.proveCalls = ["hashToCurveElligator2", "hashPoints", "ProofToHash"] ∧
+    GV.Gen.VrfFacts.decodeConds = ["len(pi) != ProofSize", "err != nil"] ∧
+    GV.Gen.VrfConsts.proofSize = 80 ∧ GV.Gen.VrfConsts.outputSize = 64 ∧
+    GV.Gen.VrfConsts.publicKeySize = 32 ∧ GV.Gen.VrfConsts.seedSize = 32 ∧ GV.Gen.VrfConsts.suite = 4 := by
+  decide
 
 /-! ### non-vacuity: the integers as a (toy) module over themselves -/
 def toy : Prims Int Int Int Int Int :=
